@@ -3,4 +3,7 @@
 EXTENDS DocGen
 MCAlphabet == {"P","DIV","T","LNK","IMG","FIG","VID","EMB","TW","DT","UL","LI"}
 MCRoots    == {"P","DIV","T","LNK","IMG","FIG","VID","EMB","TW","DT","UL"}
+\* linked pictures: an image inside a link (plain or javascript:), with line breaks, in a block without words
+LinkAlphabet == {"DIV", "P", "T", "A", "AJ", "IMG", "BR"}
+LinkRoots    == {"DIV", "P", "T", "A", "AJ"}
 ====
